@@ -839,6 +839,8 @@ def sym_attr(I, obj, name):
 def _sym_attr(I, obj, name):
     from .interp import PyRaise
     if isinstance(obj, SV):
+        if name == "tofile":
+            return lambda fid, *x, **kw: fid.write_array(A.getitem(A.as_sarr(obj), (None,)))
         if name == "is_integer" and obj.is_real:
             return lambda: wrap(z3.IsInt(obj.t))
         if name in ("astype",):
@@ -1077,3 +1079,35 @@ def _deepcopy(I, a, k):
     if not _anysym(a):
         return NotImplemented
     return _deepcopy_sym(a[0])
+
+
+def _opaque_unary(name):
+    def m(I, a, k):
+        if not _anysym(a, k):
+            return NotImplemented
+        x = a[0]
+        if isinstance(x, SArr):
+            dt = x.dtype if x.dtype.kind == "f" else np.dtype("float64")
+            f = z3.Function(name + "!uf", z3.RealSort(), z3.RealSort())
+            return A.ewise(lambda t: f(to_real(A.cast_term(x.dtype, dt, t))), dt, x)
+        f = z3.Function(name + "!uf", z3.RealSort(), z3.RealSort())
+        return wrap(f(to_real(term(x))))
+    return m
+
+
+model(np.sqrt)(_opaque_unary("sqrt"))
+model(np.exp)(_opaque_unary("exp"))
+model(np.cos)(_opaque_unary("cos"))
+model(np.sin)(_opaque_unary("sin"))
+
+
+@model(np.tile)
+def _tile(I, a, k):
+    if not _anysym(a, k):
+        return NotImplemented
+    x = A.as_sarr(a[0])
+    reps = a[1] if isinstance(a[1], (tuple, list)) else (a[1],)
+    if x.ndim == 1 and len(reps) == 2 and A.conc(reps[1]) == 1:
+        s = x.snapshot()
+        return SArr(x.dtype, (A.dim(reps[0]), x.shape[0]), lambda idx: s((idx[1],)))
+    raise Unsupported("np.tile other than tile(1-d, (k, 1))")
